@@ -31,7 +31,8 @@ RULE = ("tables: every composition table with 1 chromosome of length <=7 and 2 c
         "HISTORIES in one process: families of coolers with the same bin size but different chromosome tables as groups of one file (alternating / blockwise / reversed), "
         "and one collection path re-created along fixed(b1) -> variable -> fixed(b2) -> variable (all four transitions, also same-kind) with every way the API offers "
         "(create_cooler mode w, mode a at the root, mode a at a nested group, `cooler load --append`), every entry plus Cooler.binsize / info bin-size / bin-type "
-        "checked against the table stored NOW. One evaluation = one API call compared with the model. "
+        "checked against the table stored NOW; OBJECT history: one Cooler object queried, then cooler.rename_chroms on that same object "
+        "(fresh names / swap / cyclic shift), then queried again by the new names and compared with the model, the oracle and a freshly opened Cooler. One evaluation = one API call compared with the model. "
         "non-trivial = valid region that is not the whole chromosome, on a chromosome with >=2 bins or a table with >=2 chromosomes; "
         "distinct by (table, region, spelling, api)")
 TRUSTED = ["h5py dataset slicing and pandas iloc are observed through the public fetch API, not modelled separately",
@@ -577,6 +578,51 @@ def history_worker(job):
                 api, reg, reg2 = tabs[i][7][c]
                 outs[i][c] = run_api(Ts[i], api, reg, reg2)
             Ts[0].close()
+        elif hist["mode"] == "objhist":
+            # OBJECT history: one Cooler object lives through changes of its file.  Query it, rename chromosomes through
+            # cooler.rename_chroms(clr, mapping) on that same object (fresh names / a swap / a cyclic shift re-using existing
+            # names), query the SAME object again by the new names and compare with the table stored now (model + oracle:
+            # chromosome i keeps its bins, only its name changed) and with a freshly opened Cooler on the same file.
+            bad = {}
+            for i, tb in enumerate(tabs):
+                T = Table(tmpdir, f"{k}_{i}", tb[0], tb[2], uri=os.path.join(d, f"r{k}_{i}.cool"))
+                fixed[i] = T.clr.binsize is not None
+                obj = T.clr
+                ncalls = len(tb[7])
+                kinds = (["fresh", "swap"], ["cycle", "fresh"], ["swap", "cycle"])[i % 3]
+                bounds = [0, ncalls // 4, (5 * ncalls) // 8, ncalls]
+                for phase in range(3):
+                    if phase > 0:
+                        old = list(T.names)
+                        kind = kinds[phase - 1]
+                        if kind == "fresh":
+                            new = [f"{n}_r{phase}" for n in old]
+                        elif kind == "swap":
+                            new = [old[1], old[0]] + old[2:] if len(old) > 1 else [old[0] + "_s"]
+                        else:
+                            new = old[1:] + old[:1] if len(old) > 1 else [old[0] + "_c"]
+                        cooler.rename_chroms(obj, {o_: n_ for o_, n_ in zip(old, new) if o_ != n_})
+                        T.names = new
+                        T.df["chrom"] = pd.Categorical([new[c] for blk in T.blocks for (c, _s, _e) in blk], categories=new, ordered=True)
+                        from cooler.util import GenomeSegmentation
+                        T.gs = GenomeSegmentation(pd.Series(index=new, data=[blk[-1][2] for blk in T.blocks]), T.df[["chrom", "start", "end"]])
+                        T.grouped = T.df[["chrom", "start", "end"]].groupby("chrom", observed=True)
+                        T.binid = {(new[c], s_): j for j, (c, s_, _e) in enumerate(b for blk in T.blocks for b in blk)}
+                        if list(obj.chromnames) != new and i not in bad:
+                            bad[i] = f"after rename_chroms ({kind}) the same Cooler object lists chromosomes {list(obj.chromnames)}, the file holds {new}"
+                    for c in range(bounds[phase], bounds[phase + 1]):
+                        api, reg, reg2 = tb[7][c]
+                        T.clr = obj
+                        got = run_api(T, api, reg, reg2)
+                        if phase > 0:
+                            T.clr = cooler.Cooler(T.uri)
+                            fresh = run_api(T, api, reg, reg2)
+                            T.clr = obj
+                            if got != fresh:
+                                got = ("the long-lived Cooler object disagrees with a freshly opened one after rename_chroms: " + str(got)[:150] + " vs " + str(fresh)[:150])
+                        outs[i][c] = got
+                T.close()
+            return [((bad[i] if i in bad else "ok"), fixed[i], outs[i]) for i in range(nt)]
         else:
             path = os.path.join(d, f"o{k}.cool")
             how = hist.get("rewrite", "w")          # w: whole file; a-root / a-group: create_cooler(mode="a") at the root / a nested group; cli-append
@@ -803,6 +849,8 @@ def run(ctx):
             seq = [0, 1, 2, 0, 1] if rep == 0 else [2, 0, 1, 0, 2]
             hists.append({"mode": "overwrite", "order": "seq" + "".join(map(str, seq)), "order_seq": seq, "family": fam,
                           "hseed": rng.randrange(1 << 30), "kind": kind})
+    for kind in ("fixed", "variable"):          # object history: a Cooler object that lives through rename_chroms
+        hists.append({"mode": "objhist", "order": "rename", "family": family_tables(rng, kind), "hseed": rng.randrange(1 << 30), "kind": kind})
     for rep in range(2 if thorough else 1):
         fam = family_mixed(rng)
         for how in ("w", "a-root", "a-group", "cli-append"):
